@@ -19,7 +19,15 @@ import (
 	"symgo/interp"
 )
 
-const repoDir = "/repo"
+// repoDir is the tree under verification. VERIF_REPO redirects a run to another checkout of the
+// same repository (used to run long sweeps on a stable copy while /repo is being patched for
+// seeded-change evaluations); the registered commands never set it.
+var repoDir = func() string {
+	if d := os.Getenv("VERIF_REPO"); d != "" {
+		return d
+	}
+	return "/repo"
+}()
 
 var verifDir = func() string {
 	if d := os.Getenv("VERIF_DIR"); d != "" {
@@ -417,9 +425,25 @@ func cmdCheck(args []string) int {
 				}
 			} else if !*noReplay {
 				ok, out := nativeReplay(spec, dir, e, rp, v.Kind, v.Label)
+				if !ok && e.Replay == "native-then-engine" {
+					// The native harness steers only one interleaving; a counterexample that needs
+					// another schedule is confirmed by re-executing its recorded trace in the engine.
+					rcfg := cfg
+					rcfg.ReplayTrace = v.TraceOf()
+					if rex, rerr := prog.Explore(rcfg); rerr == nil {
+						for _, rv := range rex.Violations {
+							if rv.Kind == v.Kind && rv.Label == v.Label {
+								ok = true
+								out = "native run failed assertion-free (schedule not reachable by the native harness); confirmed by deterministic re-execution of the recorded decision and schedule trace in the engine\n"
+							}
+						}
+					}
+				}
 				if ok {
 					vo.Replayed = "reproduced natively"
-					if strings.HasPrefix(out, "native run failed assertion") {
+					if strings.HasPrefix(out, "native run failed assertion-free") {
+						vo.Replayed = "not reproduced natively (the native harness cannot force this schedule); reproduced by deterministic re-execution of the recorded decision and schedule trace in the engine"
+					} else if strings.HasPrefix(out, "native run failed assertion") {
 						vo.Replayed = "reproduced natively: " + out[:strings.IndexByte(out, '\n')]
 					}
 				} else {
